@@ -163,7 +163,7 @@ LOOPFRESH_TABLE = {'canvas.CompositeCanvas.content_delta': (('C02', 'C04'),
  'canvas.apply_text_layout': (('C03', 'C17', 'C01'),
                               (('line', ('$ = []', '$.append(_)', "$.append(b''.rjust(_.sc))", "_.append(b''.join($))")),
                                ('linea', ('$ = []', '$.append((None, _.sc))', '_.append($)')),
-                               ('linec', ('$ = []', '$.append((None, _.sc))', '_.append($)', 'rle_join_modify($, _)'))),
+                               ('linec', ('$ = []', '$.append((None, _.sc))', '_.append($)', 'rle_append_modify($, (None, _.sc))', 'rle_join_modify($, _)'))),
                               'text, attribute and charset runs of a line would start with those of the previous line'),
  'text_layout.StandardTextLayout._calculate_trimmed_segments': (('C03', 'C01'),
                                                                 (('line', ('$ += [(_, _)]', '$ += [(_, _, _)]', '$ = []', '_.append($)')),
